@@ -300,7 +300,7 @@ impl Property for C12 {
     }
     fn cases(&self, tier: Tier) -> u32 {
         if tier.thorough() {
-            2_000_000
+            6_000_000
         } else {
             80_000
         }
